@@ -510,7 +510,7 @@ func (g *Gen) Statements(n int) {
 			// mostly beyond every value in use (explicit values are <= 20, generated ones follow the
 			// counter); rarely a low value: the engine then re-issues existing ids (known finding)
 			g.nalter++
-			if g.chance(0.1) {
+			if g.chance(0.05) {
 				s = AlterAuto(tn, 1+g.pick(12))
 			} else {
 				s = AlterAuto(tn, 40*g.nalter+g.pick(6))
@@ -801,7 +801,12 @@ func (g *Gen) update(tn string, t *Table, ignore bool) *Stmt {
 		if g.roleOf(t, c).inKey {
 			touchesKey = true
 		}
-		set = append(set, SetItem{Col: c, E: g.setExpr(tn, t, c)})
+		e := g.setExpr(tn, t, c)
+		if ignore && t.Cols[c-1].NotNull && genSources(t)[c] && !g.chance(0.06) {
+			// steering around the known finding "IGNORE computes generated columns from the NULL it replaces"
+			e = Lit(g.value(tn, t, c, false))
+		}
+		set = append(set, SetItem{Col: c, E: e})
 	}
 	if len(set) == 0 {
 		return nil
